@@ -10,6 +10,7 @@ a large value to the wrong row.
 
 import copy
 
+import numpy
 import torch
 
 from .. import gen
@@ -144,6 +145,20 @@ def run_case(cls, params, rec):
 			"shuffle": ersatz.shuffle}[refmode]
 		kw["n_shuffles"] = ns
 		kw["random_state"] = params["random_state"]
+		sk = params.get("seedkind", "int")
+		if sk == "npint":
+			# seeds / counts read from an array
+			kw["random_state"] = numpy.int64(params["random_state"])
+			kw["n_shuffles"] = numpy.int64(ns)
+			rec.count("numpy_integer_seed_cases")
+		elif sk == "large":
+			# a legal integer seed past 2**31 (e.g. a millisecond timestamp);
+			# the plain shuffle hands its seed to numpy's RandomState, which
+			# takes values below 2**32
+			kw["random_state"] = (1759536000123 + params["random_state"]
+				if refmode == "dinuc" else 2 ** 31 + 5 +
+				params["random_state"])
+			rec.count("large_seed_cases")
 	if retref:
 		kw["return_references"] = True
 	desc = {"arch": dls.describe(spec), "n": n, "n_shuffles": ns,
@@ -360,6 +375,7 @@ def gen_case(seed, k):
 		"mode": r.choice(["processed", "raw", "hypothetical"]),
 		"return_references": r.random() < 0.5,
 		"random_state": r.randrange(1000),
+		"seedkind": ["int", "npint", "large", "int"][k % 4],
 		"batch_size": r.randint(1, n * ns + 1),
 		"scale_outlier": (1 + k) if k % 4 == 2 else 0,
 		"prior_override_call": k % 4 == 1, "bn_train": k % 4 == 3}
